@@ -362,6 +362,20 @@ def run_case(desc, ctx):
                               "with smoothing off the field is not the element-wise normalised harmonic extension of the constrained frames", max_diff=float(diff.max()),
                               order=order, cotan=desc["cotan"], cond=float(cond))
                 return
+            # history: optimize() asked again on the same object (a caller re-running the solve, run() followed by optimize()): with smoothing off
+            # the solve is direct, so the field must again be the normalised harmonic extension of the same constrained frames
+            if desc["seed"] % 2 == 0:
+                ctx.cls("history:optimize_called_again_on_the_same_object")
+                for again in range(2):
+                    ok, _ = ctx.call("optimize[%s]" % elements, ff.optimize, monitor="harmonic")
+                    var_again = np.array(ff.var, dtype=complex)
+                    ctx.obs("harmonic", "again")
+                    d_again = np.abs(var_again[free] - want)[ok_el] if var_again.shape == var.shape else np.array([np.inf])
+                    if len(d_again) and not d_again.max() <= 1e-6:
+                        ctx.violation("harmonic", elements, "second_optimize_is_not_the_normalised_harmonic_extension",
+                                      "optimize() called again on the same field object no longer yields the normalised harmonic extension of the constrained frames",
+                                      max_diff=float(d_again.max()), call=again + 2, order=order, cotan=desc["cotan"])
+                        return
         else:
             ctx.note("harmonic_system_ill_conditioned_not_judged")
     # flat connection reduces to the scalar Laplacian: on this mesh when it is planar, and on a dedicated planar Delaunay disk in every case
